@@ -23,8 +23,11 @@ use rustdoc_types::{Variant, VariantKind, Visibility};
 
 #[allow(dead_code)]
 #[derive(Serialize, Deserialize)]
+#[repr(u32)]
 pub enum Probe {
     Unit,
+    /// an explicit discriminant: serde numbers variants by position, whatever the discriminant is
+    UnitD = 7,
     Tuple0(),
     TupleOnlySkipped(#[serde(skip)] u32),
     Tuple1(u32),
@@ -58,13 +61,15 @@ struct ShapeSpec {
 #[derive(Clone, Copy, PartialEq, Eq)]
 enum Style {
     Unit,
+    UnitDiscriminant,
     Tuple,
     Braced,
     SkipVariant,
 }
 
-const SHAPES: [ShapeSpec; 11] = [
+const SHAPES: [ShapeSpec; 12] = [
     ShapeSpec { name: "unit", probe: "Unit", style: Style::Unit, fields: &[] },
+    ShapeSpec { name: "unit-with-explicit-discriminant", probe: "UnitD", style: Style::UnitDiscriminant, fields: &[] },
     ShapeSpec { name: "tuple-0", probe: "Tuple0", style: Style::Tuple, fields: &[] },
     ShapeSpec { name: "tuple-only-field-skipped", probe: "TupleOnlySkipped", style: Style::Tuple, fields: &[("0", "u32", true)] },
     ShapeSpec { name: "tuple-1", probe: "Tuple1", style: Style::Tuple, fields: &[("0", "u32", false)] },
@@ -211,13 +216,18 @@ pub fn apply(c: &mut Crate, vs: &VariantShape, base_max: u32) {
         );
     }
     let kind = match s.style {
-        Style::Unit => VariantKind::Plain,
+        Style::Unit | Style::UnitDiscriminant => VariantKind::Plain,
         Style::Tuple => VariantKind::Tuple(ids.into_iter().map(Some).collect()),
         Style::Braced => VariantKind::Struct { fields: ids, has_stripped_fields: false },
         Style::SkipVariant => unreachable!(),
     };
     match &mut c.index.get_mut(&vid).expect("variant").inner {
-        ItemEnum::Variant(Variant { kind: k, .. }) => *k = kind,
+        ItemEnum::Variant(Variant { kind: k, discriminant }) => {
+            *k = kind;
+            if s.style == Style::UnitDiscriminant {
+                *discriminant = Some(rustdoc_types::Discriminant { expr: "7".into(), value: "7".into() });
+            }
+        }
         _ => machinery_error("variant-shape: target is not a variant"),
     }
 }
@@ -458,6 +468,7 @@ pub fn describe(fx: &Fixtures, vs: &VariantShape) -> String {
     let vname = v.and_then(|v| v.name.clone()).unwrap_or_default();
     let written = match vs.shape.as_str() {
         "unit" => vname.to_string(),
+        "unit-with-explicit-discriminant" => format!("{vname} = 7"),
         "tuple-0" => format!("{vname}()"),
         "tuple-only-field-skipped" => format!("{vname}(#[serde(skip)] u32)"),
         "tuple-1" => format!("{vname}(u32)"),
